@@ -33,6 +33,8 @@ def null_of(dt, func=None):
     dt = real_np.dtype(dt)
     if func in ("sum", "sum_squares", "count", "size"):
         return 0.0 if dt.kind == "f" else 0
+    if func == "mean" and dt.kind not in "mM":
+        return float("nan")
     if dt.kind == "f":
         return float("nan")
     if dt.kind in "mM":
